@@ -190,6 +190,19 @@ func checkC05(c *Ctx) {
 	c.Decides("KEY-RAW: every access to the name index's map in tree/nodeindex.go is keyed by a name as it is (a name variable or a Name() call), on the storing and on the looking-up side alike")
 	c.indexKeysRaw("KEY-RAW", "that outgroup is exactly one of the two clades below the root")
 	c.Floor("KEY-RAW", 4)
+	c.Decides("ABSENT-USE: in package tree, in the branch taken when a length / support / p-value equals its 'absent' sentinel, that value is not an operand of arithmetic (no half of an absent length)")
+	if sites, viol := c.absentUse("ABSENT-USE", c.AllFuncs("tree"), "the separating branch being cut into two equal halves"); viol == 0 {
+		if sites < 5 {
+			c.Undecided("ABSENT-USE", "scan", token.NoPos, fmt.Sprintf("only %d branches taken on an absent value found in package tree (twelve on the reference tree)", sites))
+		} else {
+			c.OK("ABSENT-USE", "scan", token.NoPos, fmt.Sprintf("%d branches taken on an absent value, none computes with it", sites))
+		}
+	}
+	c.Decides("REINDEX-LAST (go/cfg, shared with C04): RerootOutGroup, RerootMidPoint, Reroot and UnRoot pass a refresh of bitsets, hash codes and depths on every path from each of their structural edits to a successful exit")
+	c.reindexLast("REINDEX-LAST", []string{"RerootOutGroup", "RerootMidPoint", "Reroot", "UnRoot"}, "preserve the tip set, the set of splits with their lengths", false)
+	for _, nm := range []string{"RerootOutGroup", "RerootMidPoint", "Reroot", "UnRoot"} {
+		c.Require("REINDEX-LAST/tree.Tree." + nm + "/refresh-after-last-edit")
+	}
 	c.Decides("DUP-REFUSED: NewNodeIndex (the name look-up behind the outgroup LCA) refuses every tree in which a non-empty name occurs twice, whatever kind of node carries it: the error return depends on the look-up result and on nothing else")
 	c.dupNameRefused("DUP-REFUSED", c.Func("tree", "", "NewNodeIndex"), "that outgroup is exactly one of the two clades below the root")
 	c.Floor("DUP-REFUSED", 1)
